@@ -139,7 +139,7 @@ def s3(ck, an):
         first_unguarded = [st for st in stores if not fa.all_paths_to_pass(st, tests)][:1] or stores[:1]
         ord_before(ck, fa, f"S3.trade-rejects-{name}", tests, first_unguarded, f"the {name} rejection", "every attribute store")
     fq = an.fa("LimitOrderBook.acq_price")
-    tab = sign_table_func(fq, fq.f.params[1])
+    tab = sign_table_or_fail(ck, fq, fq.f.params[1], "S3.execution-side-shape") or {"neg": "?", "pos": "?", "zero": "?", "nan": "?"}
     ck.check(tab["nan"] == "raise", "SIGN", "S3.acq-price-nan-raises", fq.f.short, fq.f.loc, "acq_price raises for a NaN quantity/weight", f"acq_price(NaN) -> {tab['nan']}",
              construct="acq_price nan")
     # the rebalancing path hands the book's current quotes to Trade
